@@ -221,7 +221,7 @@ class Session:
     def _materialise(self, w: World):
         os.makedirs(self.proj)
         with open(os.path.join(self.proj, "workflow.py"), "w") as f:
-            f.write(w.wf.source())
+            f.write(w.wf.source().replace("@PROJBASE@", os.path.basename(self.proj)).replace("@PROJ@", self.proj))
         self.write_files(w.files)
         if w.conf is not None:
             with open(os.path.join(self.proj, ".gwfconf.json"), "w") as f:
